@@ -47,6 +47,7 @@ ResKinds   == ReadKinds \cup WriteKinds
 NoKinds    == {"Unit", "Phantom"}
 Styles     == {"tuple", "named", "tstruct"}
 MaxArity   == 26
+MaxFields  == 64
 
 ToSet(s) == {s[i] : i \in DOMAIN s}
 
@@ -81,7 +82,8 @@ WF(tb, nres) ==
              \/ x.kind \in HKinds /\ x.res \in 1..nres /\ x.comp \in 1..nres
              \/ x.kind \in NoKinds /\ x.res = 0 /\ x.comp = 0
        ELSE /\ x.t \in Styles /\ x.comp = 0
-            /\ Len(x.kids) \in 1..MaxArity
+            \* tuples exist up to arity 26; a derived struct may have any number of fields
+            /\ Len(x.kids) \in 1..(IF x.t = "tuple" THEN MaxArity ELSE MaxFields)
             /\ \A j \in DOMAIN x.kids : x.kids[j] \in (n + 1)..Len(tb)
 
 \* ---- the composition rules ------------------------------------------------------
@@ -160,23 +162,42 @@ Fetch(tb, present, b0) == RunFetch(FetchSteps(tb, 1), 1, present, b0, b0)
 \* a world is a function resource -> value, 0 = absent; dflt[r] > 0 is Default::default()
 Absent == 0
 Present(world) == {x \in DOMAIN world : world[x] # Absent}
-\* result: the world, the resources created (in order), the custom-handler calls (in order)
-RECURSIVE RunSetup(_, _, _, _, _, _)
-RunSetup(steps, i, world, created, calls, dflt) ==
-  IF i > Len(steps) THEN [world |-> world, created |-> created, calls |-> calls]
-  ELSE LET st == steps[i]
-           x == st.res
-           w1 == IF world[x] = Absent THEN [world EXCEPT ![x] = dflt[x]] ELSE world
-           c1 == IF world[x] = Absent THEN Append(created, x) ELSE created
-       IN
-       IF st.h = "default" THEN RunSetup(steps, i + 1, w1, c1, calls, dflt)
-       ELSE \* custom handler: always called; own resource, then the companion, each if vacant
-            LET y == st.comp
-                w2 == IF w1[y] = Absent THEN [w1 EXCEPT ![y] = dflt[y]] ELSE w1
-                c2 == IF w1[y] = Absent THEN Append(c1, y) ELSE c1
-            IN RunSetup(steps, i + 1, w2, c2, Append(calls, x), dflt)
+\* The environment of a setup: env.pdef[x] - Default::default() of x's type panics (the "must be
+\* inserted explicitly" idiom); env.leaked[x] \in 0 | 1 | 2 - a shared / exclusive guard of the present
+\* resource x was leaked (mem::forget) before the setup.
+NoEnv(S) == [pdef |-> [x \in S |-> FALSE], leaked |-> [x \in S |-> 0]]
 
-Setup(tb, world, dflt) == RunSetup(SetupSteps(tb, 1), 1, world, <<>>, <<>>, dflt)
+\* What a providing handler does for resource y (src/world/setup.rs, entry.rs: entry().or_insert_with(
+\* T::default), then borrow_mut of the cell): a vacant slot gets Default::default() - which may panic,
+\* nothing inserted; an occupied slot is left alone (Default is NOT evaluated) but its cell is
+\* borrowed mutably for a moment - a panic when a guard was leaked, nothing modified.
+Provide(world, created, y, dflt, env) ==
+  IF world[y] = Absent
+  THEN IF env.pdef[y] THEN [out |-> "panic_default", world |-> world, created |-> created]
+       ELSE [out |-> "ok", world |-> [world EXCEPT ![y] = dflt[y]], created |-> Append(created, y)]
+  ELSE IF env.leaked[y] # 0 THEN [out |-> "panic_borrow", world |-> world, created |-> created]
+       ELSE [out |-> "ok", world |-> world, created |-> created]
+
+\* result: outcome (ok | panic_default | panic_borrow: the setup stops at the panicking member), the
+\* world, the resources created (in order), the custom-handler calls (in order)
+RECURSIVE RunSetup(_, _, _, _, _, _, _)
+RunSetup(steps, i, world, created, calls, dflt, env) ==
+  IF i > Len(steps) THEN [out |-> "ok", world |-> world, created |-> created, calls |-> calls]
+  ELSE LET st == steps[i]
+           p1 == Provide(world, created, st.res, dflt, env)
+       IN
+       IF st.h = "default" THEN
+          IF p1.out # "ok" THEN [out |-> p1.out, world |-> p1.world, created |-> p1.created, calls |-> calls]
+          ELSE RunSetup(steps, i + 1, p1.world, p1.created, calls, dflt, env)
+       ELSE \* custom handler: always called (logged first); own resource, then the companion
+            LET c1 == Append(calls, st.res)
+                p2 == Provide(p1.world, p1.created, st.comp, dflt, env)
+            IN IF p1.out # "ok" THEN [out |-> p1.out, world |-> p1.world, created |-> p1.created, calls |-> c1]
+               ELSE IF p2.out # "ok" THEN [out |-> p2.out, world |-> p2.world, created |-> p2.created, calls |-> c1]
+               ELSE RunSetup(steps, i + 1, p2.world, p2.created, c1, dflt, env)
+
+SetupEnv(tb, world, dflt, env) == RunSetup(SetupSteps(tb, 1), 1, world, <<>>, <<>>, dflt, env)
+Setup(tb, world, dflt) == SetupEnv(tb, world, dflt, NoEnv(DOMAIN world))
 
 \* =======================================================================================
 \* PROPERTY DEFINITIONS.  Every operator takes the observation as ARGUMENTS so that the
@@ -226,6 +247,11 @@ P_C06_outcome(tb, present, b0, out) ==
 \* and of custom-handler calls - every member's handler is called whatever already exists)
 P_C06_setup(tb, w0, dflt, created, calls, w1) ==
   LET s == Setup(tb, w0, dflt) IN created = s.created /\ calls = s.calls /\ w1 = s.world
+\* the same in an environment with panicking Defaults / leaked guards: the setup runs its members
+\* in order up to the one that panics (outcome included)
+P_C06_setup_env(tb, w0, dflt, env, out, created, calls, w1) ==
+  LET s == SetupEnv(tb, w0, dflt, env) IN
+  out = s.out /\ created = s.created /\ calls = s.calls /\ w1 = s.world
 
 \* C13, world half: setup modifies nothing that exists, creates exactly the vacant
 \* handler-provided resources (with the default value); Option / Expect forms create nothing
@@ -238,6 +264,22 @@ P_C13_world(tb, w0, dflt, w1) ==
        IF w0[x] # Absent THEN w1[x] = w0[x]
        ELSE IF x \in Provided(tb) THEN w1[x] = dflt[x]
        ELSE w1[x] = Absent
+
+\* nothing that exists is modified - whatever the outcome of the setup
+P_C13_noclobber(w0, w1) ==
+  DOMAIN w1 = DOMAIN w0 /\ \A x \in DOMAIN w0 : w0[x] # Absent => w1[x] = w0[x]
+\* Default::default() is evaluated only for a vacant, provided resource (never for one that exists)
+P_C13_nodefault(tb, w0, created) ==
+  \A i \in DOMAIN created :
+     created[i] \in DOMAIN w0 /\ w0[created[i]] = Absent /\ created[i] \in Provided(tb)
+\* all of it, in an environment: a setup that the environment lets complete completes (and reaches
+\* every member); one that must panic panics, having done exactly the members before
+P_C13_setup(tb, w0, dflt, env, out, created, w1) ==
+  LET s == SetupEnv(tb, w0, dflt, env) IN
+  /\ P_C13_noclobber(w0, w1)
+  /\ P_C13_nodefault(tb, w0, created)
+  /\ IF s.out = "ok" THEN out = "ok" /\ P_C13_world(tb, w0, dflt, w1)
+     ELSE out = s.out /\ w1 = s.world
 
 \* =======================================================================================
 \* State machine of ONE probe of one shape (model checking; the trace specification
@@ -316,6 +358,7 @@ P_C06_lemmas ==
 P_C13_world_inv ==
   phase = "setup" =>
      /\ P_C13_world(sh, world0, Dflt, world)
+     /\ P_C13_setup(sh, world0, Dflt, NoEnv(Res), outc.out, outc.created, world)
      /\ P_C06_setup(sh, world0, Dflt, outc.created, outc.calls, world)
      \* every custom handler is called exactly once per occurrence, whatever exists
      /\ Len(outc.calls) = Cardinality({i \in DOMAIN Leaves(sh, 1) : Leaves(sh, 1)[i].kind \in HKinds})
